@@ -126,7 +126,9 @@ func (m *UpstreamClusterController) syncUpstreamCluster(obj interface{}) (syncqu
 		clusterInfo, err = clusters.CreateClusterInfo(cluster, GatewayHealthCheck, m.rateLimiter, m.clientSets)
 		defer func() {
 			if err != nil {
-				clusterInfo.Stop()
+				if clusterInfo != nil {
+					clusterInfo.Stop()
+				}
 				m.DeleteForServerNames(clusterName)
 			}
 		}()
